@@ -34,6 +34,14 @@ def make_case(seed, i, tier):
     if deep:
         # long histories of larger systems with many workers: late symptoms of an earlier wrong move
         prof.update(n_intf_choices=[5, 6, 8], steps_choices=[60, 100], workers_choices=[3, 4, 99])
+    if i % 40 == 21:
+        # one large all-wire-fencing system: idle blocks above the size at which the probability code
+        # switches from permanents to its Monte-Carlo estimate
+        prof.update(n_intf=14, wf_p=1.0, workers=rng.choice([1, 2]), steps=4, maxlength=200,
+                    lambda_minus_one=False, multi_engine=False, order_model="fifo")
+        prof.pop("workers_choices", None)
+        prof.pop("n_intf_choices", None)
+        prof.pop("steps_choices", None)
     scn = SC.gen_scenario(rng, prof)
     scn["abs_load_dir"] = rng.random() < 0.15       # absolute simulation.load_dir
     kind = rng.choice(["single", "single", "clean_chain", "crash_chain", "mixed", "tail"])
